@@ -181,22 +181,96 @@ func c13exec(c *h.Ctx, cs *h.Case) {
 	nondet := func(kind, what string) {
 		cs.Fail(kind+"-id-nondeterministic", what)
 	}
+	mkSI := func(m []int, port int) *network.ServerIdentity {
+		si := c13si(keys[m[0]], port)
+		for j, s := range m[1:] {
+			p, _ := c13point(keys[s].ed, keys[s].raw)
+			suite := "Ed25519"
+			if !keys[s].ed {
+				suite = c13bn.String()
+			}
+			si.ServiceIdentities = append(si.ServiceIdentities,
+				network.ServiceIdentity{Name: fmt.Sprintf("svc%d", j), Suite: suite, Public: p})
+		}
+		return si
+	}
+	siSpec := map[*network.ServerIdentity][]int{} // identity object -> key indices (server, services…)
 	mkRoster := func() *onet.Roster {
 		var sis []*network.ServerIdentity
 		for i, m := range members {
-			si := c13si(keys[m[0]], i)
-			for j, s := range m[1:] {
-				p, _ := c13point(keys[s].ed, keys[s].raw)
-				suite := "Ed25519"
-				if !keys[s].ed {
-					suite = c13bn.String()
-				}
-				si.ServiceIdentities = append(si.ServiceIdentities,
-					network.ServiceIdentity{Name: fmt.Sprintf("svc%d", j), Suite: suite, Public: p})
-			}
+			si := mkSI(m, i)
+			siSpec[si] = m
 			sis = append(sis, si)
 		}
 		return onet.NewRoster(sis)
+	}
+	parseMembers := func(toks []string) ([][]int, bool) {
+		var ms [][]int
+		for _, s := range toks {
+			var m []int
+			for _, f := range strings.Split(s, "/") {
+				i, err := strconv.ParseUint(f, 10, 31)
+				if err != nil || int(i) >= len(keys) {
+					return nil, false
+				}
+				m = append(m, int(i))
+			}
+			ms = append(ms, m)
+		}
+		return ms, len(ms) > 0
+	}
+	// recordRoster: the observation and the oracle entries of the current roster (`members`, `roster`)
+	recordRoster := func(how string) {
+		id := roster.ID.String()
+		if g, err := roster.GetID(); err != nil || g.String() != id {
+			if how == "roster" {
+				nondet("roster", "GetID differs from the id NewRoster assigned")
+			} else {
+				cs.Fail("roster-derived-id:"+how, "the roster returned by "+how+" carries the id "+id+" but GetID() of its own list is "+g.String())
+			}
+		}
+		if fresh := mkRoster().ID.String(); fresh != id {
+			if how == "roster" {
+				nondet("roster", "a roster rebuilt from the same keys has another id")
+			} else {
+				cs.Fail("roster-derived-id:"+how, "the roster returned by "+how+" has the id "+id+", NewRoster of the same list has "+fresh)
+			}
+		}
+		o := &c13obj{kind: "roster", id: id}
+		var flat []string
+		for _, m := range members {
+			var mk []string
+			for _, k := range m {
+				mk = append(mk, hex.EncodeToString(keys[k].raw))
+			}
+			o.mem = append(o.mem, mk)
+			flat = append(flat, mk...)
+		}
+		o.value = fmt.Sprint(o.mem)
+		o.class = strings.Join(flat, ",")
+		objs = append(objs, o)
+		cs.Impl = append(cs.Impl, id)
+	}
+	// adopt: the members of a roster the code derived from the current one
+	adopt := func(res *onet.Roster, extra map[*network.ServerIdentity][]int) bool {
+		var ms [][]int
+		for _, si := range res.List {
+			m, ok := siSpec[si]
+			if !ok {
+				m, ok = extra[si]
+			}
+			if !ok {
+				return false
+			}
+			ms = append(ms, m)
+		}
+		members, roster = ms, res
+		for _, si := range res.List {
+			if m, ok := extra[si]; ok {
+				siSpec[si] = m
+			}
+		}
+		return true
 	}
 	for _, op := range cs.Ops {
 		tk := strings.Fields(op)
@@ -258,20 +332,7 @@ func c13exec(c *h.Ctx, cs *h.Case) {
 			}
 			cs.Impl = append(cs.Impl, strings.Join(out, " "))
 		case "roster":
-			var ms [][]int
-			ok := len(tk) > 2
-			for _, s := range tk[2:] {
-				var m []int
-				for _, f := range strings.Split(s, "/") {
-					i, err := strconv.ParseUint(f, 10, 31)
-					if err != nil || int(i) >= len(keys) {
-						ok = false
-						break
-					}
-					m = append(m, int(i))
-				}
-				ms = append(ms, m)
-			}
+			ms, ok := parseMembers(tk[2:])
 			if !ok {
 				bad()
 				continue
@@ -282,33 +343,82 @@ func c13exec(c *h.Ctx, cs *h.Case) {
 				cs.Impl = append(cs.Impl, "err:nil-roster")
 				continue
 			}
-			id := roster.ID.String()
-			if g, err := roster.GetID(); err != nil || g.String() != id {
-				nondet("roster", "GetID differs from the id NewRoster assigned")
+			recordRoster("roster")
+		case "concat":
+			ms, ok := parseMembers(tk[2:])
+			if !ok || roster == nil {
+				bad()
+				continue
 			}
-			if mkRoster().ID.String() != id {
-				nondet("roster", "a roster rebuilt from the same keys has another id")
+			extra := map[*network.ServerIdentity][]int{}
+			var sis []*network.ServerIdentity
+			for i, m := range ms {
+				si := mkSI(m, 100+i)
+				extra[si] = m
+				sis = append(sis, si)
 			}
-			o := &c13obj{kind: "roster", id: id}
-			var flat []string
-			for _, m := range members {
-				var mk []string
-				for _, k := range m {
-					mk = append(mk, hex.EncodeToString(keys[k].raw))
+			res := roster.Concat(sis...)
+			if res == nil || !adopt(res, extra) {
+				cs.Impl = append(cs.Impl, "err:nil-roster")
+				cs.Fail("roster-derived:concat", "Concat returned no roster or one with foreign identities")
+				continue
+			}
+			recordRoster("Concat")
+		case "withroot":
+			if len(tk) != 3 || roster == nil {
+				bad()
+				continue
+			}
+			p, err := strconv.ParseUint(tk[2], 10, 31)
+			if err != nil || int(p) >= len(roster.List) {
+				bad()
+				continue
+			}
+			root := roster.List[p]
+			if p%2 == 1 {
+				root = mkSI(members[p], 200) // a separate value with the same key
+			}
+			res := roster.NewRosterWithRoot(root)
+			if res == nil || !adopt(res, nil) {
+				cs.Impl = append(cs.Impl, "err:nil-roster")
+				cs.Fail("roster-derived:withroot", "NewRosterWithRoot returned no roster for a member of the roster")
+				continue
+			}
+			recordRoster("NewRosterWithRoot")
+		case "subset":
+			if len(tk) != 4 || roster == nil {
+				bad()
+				continue
+			}
+			p, e1 := strconv.ParseUint(tk[2], 10, 31)
+			n, e2 := strconv.ParseUint(tk[3], 10, 31)
+			if e1 != nil || e2 != nil || int(p) >= len(roster.List) {
+				bad()
+				continue
+			}
+			res := roster.RandomSubset(roster.List[p], int(n))
+			obs := "ok"
+			if res == nil {
+				obs = "inconsistent"
+				cs.Fail("roster-derived:subset", "RandomSubset returned no roster")
+			} else {
+				g, err := res.GetID()
+				if err != nil || !g.Equal(res.ID) || !onet.NewRoster(res.List).ID.Equal(res.ID) {
+					obs = "inconsistent"
+					cs.Fail("roster-derived-id:RandomSubset", "the roster returned by RandomSubset carries an id that is not the id of its list")
 				}
-				o.mem = append(o.mem, mk)
-				flat = append(flat, mk...)
+				if len(res.List) == 0 || res.List[0] != roster.List[p] {
+					obs = "inconsistent"
+					cs.Fail("roster-derived:subset", "RandomSubset does not start with the requested root")
+				}
 			}
-			o.value = fmt.Sprint(o.mem)
-			o.class = strings.Join(flat, ",")
-			objs = append(objs, o)
-			cs.Impl = append(cs.Impl, id)
+			cs.Impl = append(cs.Impl, obs)
 		case "tree":
 			if len(tk) != 3 || roster == nil {
 				bad()
 				continue
 			}
-			type pa struct{ m, a int }
+			type pa struct{ m, idx, a int }
 			var l []pa
 			ok := true
 			for _, s := range strings.Split(tk[2], ",") {
@@ -317,16 +427,27 @@ func c13exec(c *h.Ctx, cs *h.Case) {
 					ok = false
 					break
 				}
-				m, e1 := strconv.ParseUint(f[0], 10, 31)
-				a, e2 := strconv.ParseUint(f[1], 10, 31)
-				if e1 != nil || e2 != nil || int(m) >= len(roster.List) {
+				mi := strings.Split(f[0], "@")
+				if len(mi) > 2 {
 					ok = false
 					break
 				}
-				l = append(l, pa{int(m), int(a)})
+				m, e1 := strconv.ParseUint(mi[0], 10, 31)
+				a, e2 := strconv.ParseUint(f[1], 10, 31)
+				idx := m
+				var e3 error
+				if len(mi) == 2 {
+					idx, e3 = strconv.ParseUint(mi[1], 10, 31)
+				}
+				if e1 != nil || e2 != nil || e3 != nil || int(m) >= len(roster.List) {
+					ok = false
+					break
+				}
+				l = append(l, pa{int(m), int(idx), int(a)})
 			}
-			// two independent builds of the same description
-			build := func() (*onet.TreeNode, *c13tnode, bool) {
+			// independent builds of the same description; the RosterIndex a node is created with is
+			// advisory (nothing checks it against the roster): as written in the op, or overridden
+			build := func(index func(p pa) int) (*onet.TreeNode, *c13tnode, bool) {
 				pos := 0
 				var rec func() (*onet.TreeNode, *c13tnode, bool)
 				rec = func() (*onet.TreeNode, *c13tnode, bool) {
@@ -335,7 +456,7 @@ func c13exec(c *h.Ctx, cs *h.Case) {
 					}
 					p := l[pos]
 					pos++
-					tn := onet.NewTreeNode(p.m, roster.List[p.m])
+					tn := onet.NewTreeNode(index(p), roster.List[p.m])
 					d := &c13tnode{key: hex.EncodeToString(keys[members[p.m][0]].raw)}
 					for i := 0; i < p.a; i++ {
 						ch, dc, ok := rec()
@@ -352,8 +473,9 @@ func c13exec(c *h.Ctx, cs *h.Case) {
 			}
 			var root *onet.TreeNode
 			var desc *c13tnode
+			asWritten := func(p pa) int { return p.idx }
 			if ok {
-				root, desc, ok = build()
+				root, desc, ok = build(asWritten)
 			}
 			if !ok {
 				bad()
@@ -361,9 +483,18 @@ func c13exec(c *h.Ctx, cs *h.Case) {
 			}
 			t := onet.NewTree(roster, root)
 			id := t.ID.String()
-			root2, _, _ := build()
+			root2, _, _ := build(asWritten)
 			if onet.NewTree(mkRoster(), root2).ID.String() != id {
 				nondet("tree", "a tree rebuilt from the same roster and shape has another id")
+			}
+			// the id is a function of roster, shape and the members on the nodes — not of the
+			// RosterIndex fields the nodes happen to carry
+			for _, alt := range []func(p pa) int{func(p pa) int { return p.m }, func(pa) int { return 0 }} {
+				root3, _, _ := build(alt)
+				if onet.NewTree(roster, root3).ID.String() != id {
+					cs.Fail("tree-id-depends-on-roster-index", "the same members on the same shape over the same roster get another tree id when the nodes carry other RosterIndex values — "+op)
+					break
+				}
 			}
 			var pre []string
 			c13pre(desc, &pre)
@@ -795,6 +926,69 @@ func c13gen(c *h.Ctx, yield func(*h.Case)) {
 		}
 		emit(fmt.Sprintf("repeated-members k=%d", k), ops...)
 	}
+	// --- hand-built trees whose nodes carry constant or stale RosterIndex values (as tests and
+	// services that call NewTreeNode themselves do): same shape, every placement — full oracle -----
+	for n := 2; n <= c.Pick(4, 5); n++ {
+		for _, sh := range c13trees(n, memo) {
+			for mode := 0; mode < 2; mode++ {
+				ops := []string{edKeys(n), idRoster(n)}
+				for _, p := range c13perms(n) {
+					var it []string
+					for i, a := range sh {
+						idx := 0
+						if mode == 1 {
+							idx = i // the index of the position in the tree, not of the member
+						}
+						it = append(it, fmt.Sprintf("%d@%d:%d", p[i], idx, a))
+					}
+					ops = append(ops, "c13 tree "+strings.Join(it, ","))
+				}
+				emit(fmt.Sprintf("full-stale-index n=%d", n), ops...)
+			}
+		}
+	}
+	// --- rosters derived from rosters: Concat, NewRosterWithRoot, RandomSubset -------------------
+	for i := 0; i < c.Pick(60, 800); i++ {
+		n := 1 + r.Intn(8)
+		extra := 1 + r.Intn(5)
+		var ks []string
+		for j := 0; j < n+extra+2; j++ {
+			ks = append(ks, edKey())
+		}
+		ops := []string{"c13 keys " + strings.Join(ks, " "), idRoster(n)}
+		// identities handed to Concat: some new, some already members, one with a service key
+		var add, all []string
+		for j := 0; j < n; j++ {
+			all = append(all, strconv.Itoa(j))
+		}
+		seen := map[int]bool{}
+		for j := 0; j < 1+r.Intn(extra+2); j++ {
+			k := r.Intn(n + extra)
+			m := strconv.Itoa(k)
+			if k >= n && r.Intn(3) == 0 {
+				m += "/" + strconv.Itoa(n+extra+r.Intn(2))
+			}
+			add = append(add, m)
+			if k >= n && !seen[k] {
+				seen[k] = true
+				all = append(all, m)
+			}
+		}
+		ops = append(ops, "c13 concat "+strings.Join(add, " "),
+			"c13 roster "+strings.Join(all, " "), // the same list through NewRoster: same id
+			idRoster(n),                           // the receiver again
+			fmt.Sprintf("c13 concat %d", n),       // one new identity: another id than the receiver's
+			fmt.Sprintf("c13 concat %d", r.Intn(n)), // nothing new
+			fmt.Sprintf("c13 withroot %d", r.Intn(n+1)),
+			fmt.Sprintf("c13 subset %d %d", r.Intn(n+1), r.Intn(n+3)),
+			"c13 tree 0:0",
+			fmt.Sprintf("c13 withroot %d", 0))
+		class := "roster-derivations"
+		if i%10 == 0 {
+			class += " xproc"
+		}
+		emit(class, ops...)
+	}
 	// --- larger random trees, servers may repeat; same tree under several rosters ---------------
 	for i := 0; i < c.Pick(150, 3000); i++ {
 		nk := 2 + r.Intn(12)
@@ -1032,7 +1226,8 @@ func c13gen(c *h.Ctx, yield func(*h.Case)) {
 	// --- malformed stream: both sides must refuse, not guess ------------------------------------
 	emit("malformed", "c13 keys", "c13 keys e00zz", "c13 roster 0", edKeys(2), "c13 roster 0 5", "c13 tree 0:0", idRoster(2),
 		"c13 tree 0:1", "c13 tree 0:1,1:0,1:0", "c13 tree 0:1,7:0", "c13 tree 0-1", "c13 token 00 00 00 00 00 00",
-		"c13 proto zz", "c13 frob", "c13 tree 0:1,1:0")
+		"c13 proto zz", "c13 frob", "c13 tree 0:1,1:0", "c13 tree 0@x:0", "c13 tree 0@1@2:0", "c13 concat", "c13 concat 9", "c13 withroot 7",
+		"c13 withroot", "c13 subset 0", "c13 subset 5 1", "c13 tree 0@5:1,1@0:0")
 }
 
 const (
